@@ -86,3 +86,17 @@ Theorem C08_multi_one_invocation_each : forall strict n ls m i,
   mrun strict (m_init n) ls = Some m -> (i < n)%nat -> (p_n (get m i) <= 1)%nat.
 Proof. exact multi_one_invocation_each. Qed.
 Print Assumptions C08_multi_one_invocation_each.
+
+(* code shape of the table look-ups the models transcribe (theories/SkelRpc.v) *)
+From Coq Require Import String.
+From GT Require Import SkelRpc.
+From GTgen Require Import Params.
+Local Open Scope string_scope.
+Theorem C08_server_getStream_shape : gskel_tunnelServer_getStream =
+  ["call mu.RLock"; "defer call mu.RUnlock"; "if streamID <= lastSeen"; "return"; "fi"; "return"; "return"].
+Proof. exact tunnelServer_getStream_shape. Qed.
+Print Assumptions C08_server_getStream_shape.
+Theorem C08_client_getStream_shape : gskel_tunnelChannel_getStream =
+  ["call mu.RLock"; "defer call mu.RUnlock"; "if streamCreated && streamID <= lastStreamID"; "return"; "fi"; "return"; "return"].
+Proof. exact tunnelChannel_getStream_shape. Qed.
+Print Assumptions C08_client_getStream_shape.
